@@ -380,6 +380,10 @@ def all_jobs():
         J.append(dict(id=jid, src='blocc/parse_statement.cpp', contract='stmt_break.c', enforce=mg, roots=[mg], replace=['_ZN4bloc7Context10topControlEv'], defines=[df],
                       cut=['_ZN4bloc7Context10topControlEv', RTE_CTOR, RTE_CTOR_S], props=['C01', 'C06'], pretty='bloc::%s::doit' % cls, canaries=['normal'],
                       structs=DEFAULT_STRUCTS + ['bloc::Symbol', 'bloc::Context', 'bloc::Executable', 'bloc::' + cls, 'bloc::Statement', 'bloc::Controller']))
+    mg = '_ZNK4bloc18VariableExpression5storeERNS_7ContextES2_PNS_10ExpressionE'
+    J.append(dict(id='var_store', src='blocc/statement_let.cpp', contract='var_store.c', enforce=mg, roots=[mg], replace=[VCALL_VALUE], cut=[VCALL_VALUE, '_ZN4bloc7Context13storeVariableEjONS_5ValueE', RTE_CTOR, RTE_CTOR_S],
+                  props=['C01', 'C05', 'C07', 'C08'], pretty='bloc::VariableExpression::store(d_ctx, s_ctx, exp)', canaries=['normal', 'exceptional'],
+                  structs=DEFAULT_STRUCTS + [STD_STRING, 'bloc::Context', 'bloc::VariableExpression']))
     mg = '_ZN4bloc7Context5purgeEv'
     PURGE_CUT = [V_CLEAR, '_ZN4bloc14FunctorManagerC1ERNS_7ContextE', '_ZN4bloc14FunctorManagerD1Ev', '_ZN4bloc14FunctorManagerC2ERNS_7ContextE', '_ZN4bloc14FunctorManagerD2Ev', '_ZN4bloc7Context4Pool5purgeEv']
     J.append(dict(id='ctx_purge', src='blocc/context.cpp', contract='ctx_purge.c', enforce=mg, roots=[mg], replace=[], cut=PURGE_CUT,
